@@ -553,6 +553,14 @@ def c08_workloads(rng, tier):
             else:
                 ops = [target, op('get', k=KA, fx=0, ft=0, mk='miss'), op('len')]
             out.append((name, init, ops))
+    # the same operations over items that are still stored but whose expiry has passed (file-backed): the replaced or
+    # removed item's file must go, the counters must follow
+    for name, target in targets:
+        if target is None or name in ('clear', 'evict', 'set-unencodable-text') or 'broken' in name or 'badtag' in name:
+            continue
+        if tier == 'quick' and name not in ('incr', 'add-file', 'set-file', 'touch', 'pop') and rng.random() < 0.6:
+            continue
+        out.append((name + '-over-expired', 'xfile', [op('tick', n=3), target, op('get', k=KA, fx=0, ft=0, mk='miss'), op('len')]))
     return out
 
 
@@ -564,6 +572,7 @@ def run_c08(tier, seed):
     tid = 0
     INITS['queue'] = [op('set', k=KA, v=F1, ttl=[], tag=2), op('push', v=F2, p=[], back=1, ttl=[], tag=0),
                       op('push', v=3, p=[], back=1, ttl=[1], tag=2)]
+    INITS['xfile'] = [op('set', k=KA, v=F1, ttl=[1], tag=2), op('set', k=KB, v=F2, ttl=[2], tag=0), op('set', k=[1, 99], v=F3, ttl=[], tag=0)]
     names = []
     for name, init, ops in c08_workloads(rng, tier):
         for stats, policy in ((False, 'lrs'), (True, 'lru')) if tier == 'thorough' else ((rng.random() < 0.3, rng.choice(['lrs', 'lru'])),):
@@ -766,6 +775,18 @@ def c10_concurrent(out, tier, seed):
                 prog[c_] = [rng.choice([pull(prefix), pull(prefix), peek(prefix), pull(prefix, 1)]) for _ in range(rng.randint(1, 3))]
         cfg = base_cfg(rng, rng.random() < 0.3, rng.choice(['absent', 'q2', 'qa']))
         jobs_rand.append((cfg, prog, rng.choice(['pct', 'random']), seed * 100000 + i, 0))
+    # expiring queue items, the clock advancing while a consumer waits for the lock: what is handed out must be live at
+    # the instant of the transaction that takes it
+    pushx = lambda v, ttl: op('push', v=v, p=[], back=1, ttl=[ttl], tag=0)
+    INITS['qx'] = [push(1), pushx(2, 2), push(3)]
+    INITS['qx2'] = [pushx(1, 2), pushx(F1, 3), push(3)]
+    for prog in ({1: [pull()], 2: [dict(peek(), a=dict(peek()['a'], retry=1))], 3: [op('tick', n=3)]},
+                 {1: [pull()], 2: [dict(pull(), a=dict(pull()['a'], retry=1))], 3: [op('tick', n=3)]},
+                 {1: [pull(), op('tick', n=2)], 2: [dict(op('peekitem', last=0, fx=0, ft=0), a=dict(last=0, fx=0, ft=0, retry=1))], 3: [op('tick', n=2)]}):
+        for init in ('qx', 'qx2'):
+            cfg = base_cfg(rng, False, init)
+            jobs_dfs.append((cfg, prog, 2, 150 if tier == 'quick' else 800, seed, tid))
+            tid += 1000
     # client orders generated by TLC from QueueConc (2 producers x 2 pushes, 2 consumers x 2 pulls), replayed on the real code
     from .. import plans
     pl, _ = plans.tlc_plans('QueueConcPlan.tla', 'QueueConcPlan.cfg', timeout=120, seed=seed)
